@@ -1001,6 +1001,17 @@ def _cryptosign(o, R, a):
                     what, pub.hex(), key.public_key()), ra)
                 continue
             res = sign(key, chal, cid)
+            if cid is not None:
+                # a channel id is known to the caller but NO binding was negotiated (channel_id_type
+                # None): the plain challenge is signed, the id plays no part
+                o.evals += 1
+                r_nb = _result(fw, key.sign_challenge(types.Challenge(method, {"challenge": chal}),
+                                                      channel_id=cid, channel_id_type=None))
+                o.stats["cryptosign_id_without_binding"] = o.stats.get("cryptosign_id_without_binding", 0) + 1
+                if type(r_nb) != str or not R.cryptosign_verify(pub, chal, None, r_nb):
+                    o.bad("C19|cryptosign|sign_challenge|channel-id-used-without-binding",
+                          "%s: sign_challenge(channel_id=.., channel_id_type=None) gave %s..., which a verifier "
+                          "without channel binding rejects" % (what, str(r_nb)[:40]), ra)
             # the same through the authenticator class and a session with transport details
             ax = {"channel_binding": "tls-unique"} if cid is not None else {}
             au = auth.create_authenticator(method, authid="joe", privkey=a["seed"], authextra=ax)
